@@ -72,8 +72,12 @@ func repoDir() string {
 	return "/repo"
 }
 
+// curWorld: the loaded program, for helpers that are plain functions over terms.
+var curWorld *World
+
 func LoadWorld() *World {
 	w := &World{RepoDir: repoDir()}
+	curWorld = w
 	os.Unsetenv("GOWORK")
 	cfg := &packages.Config{
 		Mode:  packages.LoadAllSyntax,
